@@ -547,6 +547,10 @@ func (topicsMapper) Create(topic *types.Topic, owner types.Uid, private interfac
 			ModeGiven: types.ModeCFull,
 			ModeWant:  topic.GetAccess(owner),
 			Private:   private})
+		if err != nil {
+			// Best effort to delete the topic record which has no subscriptions.
+			adp.TopicDelete(topic.Id, false, true)
+		}
 	}
 
 	return err
